@@ -239,6 +239,7 @@ func c12e2e(c *wk.Ctx) {
 					c.Viol("C12", idx, "e2e/no-frame-under-stored-key", "no frame under the stored key reached the stored address", nil)
 				}
 				c.Distinct("resume", k, key[0] == 0, salt)
+				c.Count("e2e.resumes", 1)
 				safeDisconnect(m)
 			}
 			w.close()
